@@ -79,6 +79,20 @@ def _plan(draw, max_len, narrow=True):
         n = max(n, draw(st.integers(4, max(4, max_len))))
     vals = [draw(st.sampled_from(pool)) for _ in range(n)]
     groups = [draw(st.integers(0, ngroups)) for _ in range(n)]
+    if draw(st.integers(0, 19 if h != "mode" else 3)) == 0:
+        # long columns (65 .. 2049 elements, groups of up to a thousand rows) laid out by an arithmetic pattern over
+        # the pool: beyond any size threshold at which a kernel might switch algorithms
+        n = draw(st.sampled_from(gen.BIG_SIZES + gen.HUGE_SIZES[:3]))
+        a, b, c = draw(st.integers(1, 97)), draw(st.integers(0, 97)), draw(st.integers(1, 97))
+        ng = draw(st.sampled_from([1, 2, 3, 7]))
+        # a sorted stretch too, so that a group's most frequent / largest values coincide now and then
+        vals = [pool[min((i * len(pool)) // n, len(pool) - 1)] if a % 2 else pool[(i * a + (i * i // 3) * b) % len(pool)] for i in range(n)]
+        groups = [(i * c + i // 5) % ng for i in range(n)]
+        if b % 3 == 0:
+            # frequencies rising (or falling) with the value: the most frequent value is the largest (smallest) one
+            nn = sorted((v for v in pool if v is not None and v == v), key=lambda v: (str(type(v)), v))
+            weighted = [v for j, v in enumerate(nn if b % 2 else nn[::-1]) for _ in range(j + 1)]
+            vals = [weighted[(i * a) % len(weighted)] for i in range(n)]
     args = {}
     if h not in ("all", "any") and draw(st.integers(0, 2)):
         args["drop_na"] = draw(st.booleans())
